@@ -33,6 +33,16 @@ Model rules (from the property statement):
   settle ("exotic"): the path ends, and if the verdict would be SAFE both outcomes
   are accepted and counted.
 
+Families (atoms listed in FAMILIES; "prefix" statements are not counted in the bound):
+  core      q, r all undefined at entry         live      `q = qubit()` up front
+  params    borrowed p / owned o                retq      function returns a qubit
+  tuple     t = (.., ..), unpacking, t[i]       struct    one-field struct, field moves
+  struct2   two-field struct: partial moves     balanced  composite atoms (reset q, move
+  core+     more atoms (thorough)                         through r): reaches deep SAFE programs
+  exotic    boundary rules (assigning to the borrowed parameter, returning fields, ...)
+Programs never contain code after return/break/continue, and the signature mentions
+p / o only if the body does.
+
 Oracle:   model VIOLATION  =>  check() must reject            (soundness)
           model SAFE       =>  check() must accept            (completeness on the core
                                fragment), and compile_function() + the real HUGR
